@@ -13,6 +13,7 @@ backtracking estimates of the same problem.
 """
 import contextlib
 import io
+import itertools
 import math
 import os
 
@@ -40,13 +41,16 @@ ASSUMPTIONS = [
     "where the reduced variables are not a (scaled) isometry of the stacked frame (POVM with >= 3 outcomes, flag on) the step direction is only "
     "required to lead to a feasible point; for a scaled isometry (POVM with 2 outcomes, flag on) the gradient may be taken in either metric; "
     "optimality is judged end-to-end in all cases",
+    "estimates obtained with re-used loss / algorithm / estimator objects (sequence family) are judged against the estimate of a run on fresh objects "
+    "of the same problem (which the core family judges against all competitors): their loss may exceed it by the stopping tolerance only",
     "measurement-process tomography, the momentum and FISTA algorithms and non-identity weights are not covered (not in the property's quantifier)",
 ]
 BOUNDS = {"quick": "Qst Q1 (tables N<=3), Povmt Q1 m=2 (N<=2) and m=3 (N=1), Qpt Q1 (N=1, at most one schedule off), Qst Q3 (N=1); exact data of every "
                    "alphabet object and typical data N=1e1..1e5 for two truths x {generic, fast} x both flags; 3 datasets x 4 stopping modes x windows {1,3}; "
-                   "cvxpy/SCS on every problem; max_iteration 500",
+                   "cvxpy/SCS on every problem; max_iteration 500; sequences of 3 datasets (4 of the 6 orders) through one loss / algorithm / estimator object "
+                   "(calc_estimate_sequence and repeated calc_estimate; pgdb generic+fast, both flags; cvxpy)",
           "thorough": "adds: every stopping mode x window {1,2,3} x eps {default, x100; /100 for the loss modes} x {generic, fast} on every core dataset; tables Qst Q1 N=4, Povmt m=2 N=3, "
-                      "Povmt m=3 N=2, Qpt N=1 with at most two schedules off, Qst Q3 N=2 with at most two schedules off; SCS eps 1e-6"}
+                      "Povmt m=3 N=2, Qpt N=1 with at most two schedules off, Qst Q3 N=2 with at most two schedules off; SCS eps 1e-6; all 6 dataset orders"}
 EXHAUSTIVE = {"quick": True, "thorough": True}
 CASE_TIMEOUT = 3000
 
@@ -215,7 +219,19 @@ def families(tier, seed):
                 for kind in ("se", "re"):
                     few.append({"cfg": cfg, "data": M.table_name(N, tab), "kind": kind, "flags": [True, False], "variants": ["_fast"],
                                 "stops": STOP1, "cvx": [SCS_EPS]})
-    return [("core", core), ("stops", stops), ("fewshot", few)]
+    seqs = []
+    for cfg in M.CFGS:
+        if os.environ.get("C11_CFGS") and cfg not in os.environ["C11_CFGS"].split(","):
+            continue
+        S = M.setup(cfg, seed)
+        ds = stop_datasets(S)
+        orders = [list(o) for o in itertools.permutations(range(len(ds)))]
+        if tier == "quick":
+            orders = [o for o in orders if o in ([0, 1, 2], [1, 2, 0], [2, 0, 1], [2, 1, 0])]
+        for kind in ("se", "re"):
+            for order in orders:
+                seqs.append({"cfg": cfg, "kind": kind, "datas": [ds[i] for i in order]})
+    return [("core", core), ("stops", stops), ("fewshot", few), ("sequence", seqs)]
 
 
 def guards(summary):
@@ -223,7 +239,7 @@ def guards(summary):
     info = summary["info"]
     need = ["steps_checked", "direction_steps_checked", "runs_stopped_by_criterion", "armijo_halvings_checked", "armijo_alpha_below_one", "boundary_minimisers",
             "interior_minimisers", "kkt_certified", "excess_judged", "competitors_compared", "cvxpy_runs_judged", "agreement_pairs",
-            "agreement_positions", "zero_count_tables", "window_sum_decisive", "forward_model_checked", "reference_minimisers_certified"]
+            "agreement_positions", "sequence_elements_compared", "zero_count_tables", "window_sum_decisive", "forward_model_checked", "reference_minimisers_certified"]
     for mode in MODES:
         need.append("stopped:" + mode)
     for k in need:
@@ -435,7 +451,130 @@ def reference_minimiser(S, kind, q, key):
     return best
 
 
+def ex_sequence(p, seed):
+    """one loss / algorithm / estimator object over several datasets (calc_estimate_sequence, and calc_estimate repeated on the
+    same objects): element i must be as good a minimiser of problem i as the estimate of a run on fresh objects (which the
+    core family judges against all competitors)."""
+    from quara.minimization_algorithm.projected_gradient_descent_backtracking import (
+        ProjectedGradientDescentBacktracking as PGDB, ProjectedGradientDescentBacktrackingOption as PO)
+    from quara.protocol.qtomography.standard.loss_minimization_estimator import LossMinimizationEstimator
+    from quara.interface.cvxpy.qtomography.standard.estimator import CvxpyLossMinimizationEstimator
+    from quara.interface.cvxpy.qtomography.standard.loss_function import (
+        CvxpyLossFunctionOption, CvxpyRelativeEntropy, CvxpyUniformSquaredError)
+    from quara.interface.cvxpy.qtomography.standard.minimization_algorithm import (
+        CvxpyMinimizationAlgorithm, CvxpyMinimizationAlgorithmOption)
+    out = Out()
+    cfg, kind = p["cfg"], p["kind"]
+    S = M.setup(cfg, seed)
+    F = S.F
+    sets = [M.dataset(S, d, seed) for d in p["datas"]]
+    mode, nhist, eps = STOP1[0]
+    nruns = 0
+
+    def emp_of(i):
+        N, qs = sets[i]
+        return [(N, np.array(q, dtype=np.float64)) for q in qs]
+
+    def compare(site, cls, route, i, v_seq, v_single, L, tol):
+        out.traces += 1
+        out.count("sequence_elements_compared")
+        if L.clip_margin(v_seq) < CLIP_GUARD or L.clip_margin(v_single) < CLIP_GUARD:
+            out.count("re_clip_touched")
+            return
+        fs, f1 = L.value(v_seq), L.value(v_single)
+        if np.abs(v_seq - v_single).max() > 1e-9:
+            out.count("sequence_element_differs_from_fresh_run")
+        if fs > f1 + tol:
+            out.fail("%s:%s:element-worse-than-fresh-run:%s:position=%s" % (site, route, cls, "first" if i == 0 else "later"),
+                     "datasets %s element %d: loss %.10g at the estimate obtained with re-used loss/algorithm objects, %.10g at the estimate of a run "
+                     "on fresh objects (allowed %.3g)" % (p["datas"], i, fs, f1, tol))
+
+    for flag in (True, False):
+        qt, (Am, Bv) = M.qt_of(S, flag)
+        Ls = [M.Loss(kind, Am, Bv, np.concatenate(sets[i][1])) for i in range(len(sets))]
+        for variant in ("", "_fast"):
+            lossname = kind + variant
+            cls = "%s:flag=%s:%s" % (cfg, flag, lossname)
+            singles = []
+            for i in range(len(sets)):
+                ok, res = run_pgdb(S, flag, sets[i][0], sets[i][1], lossname, mode, nhist, eps)
+                out.ops += 1
+                singles.append(np.asarray(res.estimated_var, float).ravel() if ok else None)
+            po = PO(mode_stopping_criterion_gradient_descent=MODES[mode], num_history_stopping_criterion_gradient_descent=nhist,
+                    eps=eps, max_iteration_optimization=MAXIT)
+            # route 1: calc_estimate_sequence
+            loss, lopt = lib_objects(lossname)
+            with quiet():
+                ok, res = A.call(LossMinimizationEstimator().calc_estimate_sequence, qt, [emp_of(i) for i in range(len(sets))], loss, lopt, PGDB(), po)
+            out.ops += 1
+            got = {}
+            if not ok:
+                if all(s is not None for s in singles):
+                    out.fail("pgdb:calc_estimate_sequence:raises:%s" % cls, "datasets %s: %s" % (p["datas"], A.fmt_exc(res)))
+            else:
+                seq = [np.asarray(v, float).ravel() for v in res.estimated_var_sequence]
+                if len(seq) != len(sets):
+                    out.fail("pgdb:calc_estimate_sequence:length:%s" % cls, "%d estimates for %d datasets" % (len(seq), len(sets)))
+                else:
+                    got["calc_estimate_sequence"] = seq
+            # route 2: calc_estimate repeated with the same estimator, loss and algorithm objects
+            loss, lopt = lib_objects(lossname)
+            est, algo = LossMinimizationEstimator(), PGDB()
+            seq = []
+            for i in range(len(sets)):
+                with quiet():
+                    ok, res = A.call(est.calc_estimate, qt, emp_of(i), loss, lopt, algo, po)
+                out.ops += 1
+                if not ok:
+                    if singles[i] is not None:
+                        out.fail("pgdb:calc_estimate-repeated:raises:%s" % cls, "datasets %s element %d: %s" % (p["datas"], i, A.fmt_exc(res)))
+                    seq = None
+                    break
+                seq.append(np.asarray(res.estimated_var, float).ravel())
+            if seq is not None:
+                got["calc_estimate-repeated"] = seq
+            for route, seq in got.items():
+                for i in range(len(sets)):
+                    if singles[i] is None or seq[i].shape != singles[i].shape:
+                        continue
+                    nruns += 1
+                    gnorm = float(np.linalg.norm(Ls[i].grad(singles[i])))
+                    compare("pgdb", cls, route, i, seq[i], singles[i], Ls[i], tol_excess(mode, eps, gnorm))
+    # CVXPY-backed estimator
+    qt, (Am, Bv) = M.qt_of(S, True)
+    Ls = [M.Loss(kind, Am, Bv, np.concatenate(sets[i][1])) for i in range(len(sets))]
+    cls = "%s:%s:scs" % (cfg, kind)
+    singles = []
+    for i in range(len(sets)):
+        ok, res = run_cvxpy(S, sets[i][0], sets[i][1], kind, SCS_EPS)
+        out.ops += 1
+        singles.append(np.asarray(res.estimated_var, float).ravel() if ok else None)
+    loss = CvxpyUniformSquaredError() if kind == "se" else CvxpyRelativeEntropy()
+    with quiet():
+        ok, res = A.call(CvxpyLossMinimizationEstimator().calc_estimate_sequence, qt, [emp_of(i) for i in range(len(sets))], loss,
+                         CvxpyLossFunctionOption(), CvxpyMinimizationAlgorithm(), CvxpyMinimizationAlgorithmOption("scs", eps_tol=SCS_EPS),
+                         is_computation_time_required=False)
+    out.ops += 1
+    if not ok:
+        if all(s is not None for s in singles):
+            out.fail("cvxpy:calc_estimate_sequence:raises:%s" % cls, "datasets %s: %s" % (p["datas"], A.fmt_exc(res)))
+    else:
+        seq = [np.asarray(v, float).ravel() for v in res.estimated_var_sequence]
+        for i in range(min(len(seq), len(sets))):
+            if singles[i] is None or seq[i].shape != singles[i].shape:
+                continue
+            nruns += 1
+            gnorm = float(np.linalg.norm(Ls[i].grad(singles[i])))
+            compare("cvxpy", cls, "calc_estimate_sequence", i, seq[i], singles[i], Ls[i], 2 * tol_cvx(SCS_EPS, gnorm))
+    out.nontrivial = nruns > 0
+    inner(out, max(nruns - 1, 0))
+    out.outcome = "sequence:%s:%s" % (kind, "ok" if not out.fails else "fail")
+    return out
+
+
 def execute(family, p, seed):
+    if family == "sequence":
+        return ex_sequence(p, seed)
     out = Out()
     cfg, dname, kind = p["cfg"], p["data"], p["kind"]
     S = M.setup(cfg, seed)
